@@ -167,7 +167,7 @@ def mutate(rng, db, k):
 
 
 def gen_cases(rng, tier):
-    n = 1200 if tier == 'quick' else 30000
+    n = 1200 if tier == 'quick' else 12000
     out = sweep_cases()
     for i in range(n):
         db = gen_db(rng)
